@@ -40,7 +40,7 @@ type trace struct {
 	Rt    bool              `json:"rt"`
 	Dlive bool              `json:"dlive"`
 	Avis  bool              `json:"avis"`
-	AvB   []string          `json:"avB"`  // view predicted by the OTHER variant of the stripper (before/after b6c6321)
+	AvB   []string          `json:"avB"` // view predicted by the OTHER variant of the stripper (before/after b6c6321)
 	LabB  string            `json:"labB"`
 	AvisI bool              `json:"avisI"`
 	LabI  string            `json:"labI"`
@@ -459,6 +459,18 @@ func runLex(in *input, res *result) {
 			ar := runArc(text, pipe)
 			if ar.err != "" {
 				res.Counts["unjudged:"+ar.err]++
+				// the round trip needs no alignment: judge it even when the spans cannot be recovered
+				if pipe == "P" && ar.masked != "" && ar.roundTrip != text {
+					cls := "other"
+					if strings.Contains(text, "__STR_0__") {
+						cls = "string-placeholder-lookalike"
+					} else if strings.Contains(text, "__IDENT_0__") {
+						cls = "identifier-placeholder-lookalike"
+					}
+					addV("unmask-not-inverse:"+cls, lexWitness{Symbols: symtxt, SQL: text, Pipeline: pipe,
+						Note: "Unmask(Mask(s)) = " + short(ar.roundTrip) + " (" + ar.err + ")"})
+					keys["rt:"+cls+"|"+symtxt] = true
+				}
 				continue
 			}
 			pv, lab := tr.Av, tr.Lab
